@@ -520,11 +520,11 @@ func (r *runningStep) ProvideStageInput(stage string, input map[string]any) erro
 		}
 		r.executionInputAvailable = true
 		// Send before unlock to ensure that it never gets closed before sending.
+		verifhook.Emit("SProv", "obj", r, "stage", "execute", "ok", true, "state", string(r.currentState), "n", len(subworkflowInputs), "par", parallelism)
 		r.executeInput <- executeInput{
 			data:        subworkflowInputs,
 			parallelism: parallelism,
 		}
-		verifhook.Emit("SProv", "obj", r, "stage", "execute", "ok", true, "state", string(r.currentState), "n", len(subworkflowInputs), "par", parallelism)
 		return nil
 	case string(StageIDOutputs):
 		return nil
@@ -556,8 +556,8 @@ func (r *runningStep) provideEnablingInput(input map[string]any) error {
 		enabled = unserializedEnabled.(bool)
 	}
 	r.enabledInputAvailable = true
-	r.enabledInput <- enabled
 	verifhook.Emit("SProv", "obj", r, "stage", "enabling", "ok", true, "val", enabled, "state", string(r.currentState))
+	r.enabledInput <- enabled
 	return nil
 }
 
